@@ -157,6 +157,12 @@ class C07(Prop):
         elif not wrap and not sc.get("ragged") and not sc.get("comma") and g.random() < 0.1:
             sc["text_index"] = True          # the index column holds text (time stamps); forces the reference engine
         sc["cellfmt"] = g.choice(["%d", "%d", "%.1f", "%.3f"])
+        if not wrap and not sc.get("ragged") and not sc.get("text_index") and not sc.get("second") and g.random() < 0.1:
+            # the caller states the column types: a dict by mnemonic or a list (as long as the declared curves, the columns, or neither)
+            if sc["declared"] >= 1 and g.random() < 0.5:
+                sc["dtypes"] = {"kind": "dict", "for": sorted(set(g.randrange(sc["declared"]) for _ in range(g.randint(0, 2))))}
+            else:
+                sc["dtypes"] = {"kind": "list", "n": g.choice([sc["declared"], sc["cols"], max(sc["cols"], sc["declared"]), max(1, sc["cols"] - 1)])}
         sc["vers"] = g.choice([1.2, 2.0])
         sc["params"] = g.random() < 0.3
         sc["title"] = g.choice(["~ASCII", "~A", "~A  K0  K1"])
@@ -173,13 +179,22 @@ class C07(Prop):
         fs = SimFS(policy=Policy.from_json(sc["policy"]))
         with fs:
             try:
+                extra = {"accept_regexp_sub_recommendations": False} if sc.get("runon") else {}
+                if sc.get("dtypes"):
+                    dt = sc["dtypes"]
+                    if dt["kind"] == "dict":
+                        cf0 = {"upper": str.upper, "lower": str.lower}.get(sc.get("case", "upper"), str)
+                        extra["dtypes"] = {cf0(curve_name(sc, j)): float for j in dt["for"]}
+                    else:
+                        extra["dtypes"] = [float] * dt["n"]
+                    res.count("dtypes-given:" + dt["kind"])
                 las = read_via(fs, text, sc["channel"], fix_kw(dict(sc.get("nkw") or {}, engine=sc["engine"], mnemonic_case=sc.get("case", "upper"),
-                                           **({"accept_regexp_sub_recommendations": False} if sc.get("runon") else {}))), tag="c07")
+                                           **extra)), tag="c07")
             except Exception as e:
                 res.count("read-raised:" + type(e).__name__)
                 res.skipped = "read raised %s (the statement speaks of successful reads)" % type(e).__name__
-                if not sc.get("ragged") and not sc.get("dlm_spelling"):
-                    # a rectangular, conformant document must be readable
+                if not sc.get("ragged") and not sc.get("dlm_spelling") and not sc.get("dtypes"):
+                    # a rectangular, conformant document must be readable (a dtypes argument that does not fit may be refused)
                     res.skipped = None
                     res.violate("C07.unreadable", "rectangular document (d=%d c=%d r=%d wrap=%s) could not be read: %s: %s" % (
                         sc["declared"], sc["cols"], sc["rows"], sc["wrap"], type(e).__name__, str(e).strip().splitlines()[-1][:200] if str(e).strip() else ""))
